@@ -71,6 +71,12 @@ var (
 	alarms  = map[string]int{}
 )
 
+// isRetirement is the monitor's OWN definition of an unspendable (retirement) output: the control
+// program starts with OP_FAIL.  It deliberately does not call vmutil.IsUnspendable of the tree under
+// test: a tree that widens that predicate would widen the set of outputs the ID does not commit to, and
+// a monitor that inherited the predicate would not notice.
+func isRetirement(prog []byte) bool { return len(prog) > 0 && prog[0] == 0x6a }
+
 func violate(c *ev.Case, key, what string, witness interface{}) {
 	alarmMu.Lock()
 	alarms[key]++
@@ -187,7 +193,7 @@ func contentStream(tx *types.TxData) *hw {
 	w.u64(uint64(len(tx.Outputs)))
 	for _, o := range tx.Outputs {
 		vote, isVote := o.TypedOutput.(*types.VoteOutput)
-		if vmutil.IsUnspendable(o.ControlProgram) {
+		if isRetirement(o.ControlProgram) {
 			w.tag("retire")
 			w.asset(o.AssetId)
 			w.u64(o.Amount)
@@ -295,7 +301,7 @@ func progClass(p []byte) string {
 	switch {
 	case bcrp.IsBCRPScript(p):
 		return "bcrp"
-	case vmutil.IsUnspendable(p):
+	case isRetirement(p):
 		return "retire"
 	}
 	return "spendable"
@@ -390,12 +396,12 @@ func checkTxMutations(c *ev.Case, im idMap, x *types.TxData) {
 			record()
 			// not consensus content under the interpretation: only possible for
 			// the tail / state data / VM version of OP_FAIL-prefixed outputs
-			ok := m.Output >= 0 && vmutil.IsUnspendable(x.Outputs[m.Output].ControlProgram)
+			ok := m.Output >= 0 && isRetirement(x.Outputs[m.Output].ControlProgram)
 			if ok && m.How != "swap" {
-				ok = m.Output < len(m.Tx.Outputs) && vmutil.IsUnspendable(m.Tx.Outputs[m.Output].ControlProgram)
+				ok = m.Output < len(m.Tx.Outputs) && isRetirement(m.Tx.Outputs[m.Output].ControlProgram)
 			}
 			if ok && m.How == "swap" {
-				ok = vmutil.IsUnspendable(x.Outputs[m.Other].ControlProgram)
+				ok = isRetirement(x.Outputs[m.Other].ControlProgram)
 			}
 			if !ok {
 				c.Inconclusive("harness model: consensus-labelled mutation %s leaves the content digest unchanged", m.Name)
@@ -611,7 +617,7 @@ func directed(c *ev.Case, im idMap) {
 	reg, _ := vmutil.RegisterProgram(contract)
 	memo, _ := vmutil.RetireProgram(c.Rand.Bytes(c.Rand.Range(1, 60)))
 	plain, _ := vmutil.RetireProgram(nil)
-	if !bcrp.IsBCRPScript(reg) || bcrp.IsBCRPScript(memo) || !vmutil.IsUnspendable(memo) {
+	if !bcrp.IsBCRPScript(reg) || bcrp.IsBCRPScript(memo) || !isRetirement(memo) {
 		c.Inconclusive("harness: vmutil.RegisterProgram / RetireProgram do not classify as expected")
 		return
 	}
@@ -713,7 +719,7 @@ func TestC03(t *testing.T) {
 	defer r.Finish()
 	r.Rule("seeded well-formed transactions / headers / sealed blocks (verif/internal/txgen) x the enumeration of single-field mutations: every field of every input and output (bit flip, last-byte flip, append, truncate, increment, high bit, list element added / dropped / changed / re-split, OP_FAIL prefix toggled, type converted), swaps, drop / duplicate of inputs and outputs, version, time range; witness: arguments, witness suffix, recorded size, block witness, supLinks; blocks: swap / drop / duplicate / append / replace a transaction and re-seal. distinct = (value kind, field[program class of the output], how, ID changed / unchanged)")
 	r.Assume("interpretation (DESIGN C03): of an OP_FAIL-prefixed output only asset, amount, BCRP contract bytes and vote type / key are consensus content; its memo tail, state data and VM version are observations; inputs of a transaction without outputs are observations (such a transaction is invalid: ErrEmptyResults); commitment-suffix bytes are read by no rule and are observations")
-	r.Assume("bcrp.IsBCRPScript / ParseContract and vmutil.IsUnspendable of the code under test define which outputs are registrations / retirements (they are what the contract table and MapTx use)")
+	r.Assume("an output is a retirement iff its program starts with OP_FAIL (the monitor's own predicate, not vmutil.IsUnspendable of the tree); bcrp.IsBCRPScript / ParseContract of the code under test define which of those are contract registrations (they are what the contract table uses)")
 	r.Assume("injectivity maps are per process (per shard) and key truncated sha256 content digests (64 bit)")
 
 	im, hm, rm := idMap{}, hashMap{}, hashMap{}
